@@ -3,6 +3,7 @@ package main
 // Symbolic execution of go/ssa functions, path by path, with loop cutting and call-by-contract.
 
 import (
+	"os"
 	"fmt"
 	"go/constant"
 	"go/token"
@@ -75,6 +76,8 @@ type Frame struct {
 	results  []Value // named results at Recover
 	callRes  map[string][]Value // results of contract-applied calls, key "<callee>#<n>"
 	callArgs map[string][]Value
+	parent   *Frame            // the frame this one is expanded inline into (nil for the function under verification)
+	unroll   map[*loopInfo]int // loops executed without cutting (concrete trip count): iterations so far
 }
 
 func (fr *Frame) clone() *Frame {
@@ -93,6 +96,12 @@ func (fr *Frame) clone() *Frame {
 	}
 	n.defers = append([]deferred{}, fr.defers...)
 	n.active = append([]loopCtx{}, fr.active...)
+	if fr.unroll != nil {
+		n.unroll = make(map[*loopInfo]int, len(fr.unroll))
+		for k, v := range fr.unroll {
+			n.unroll[k] = v
+		}
+	}
 	n.calls = make(map[string]int, len(fr.calls))
 	for k, v := range fr.calls {
 		n.calls[k] = v
@@ -305,7 +314,7 @@ func (fr *Frame) recordWrite(p Ptr) { fr.recordWriteT(p, nil) }
 
 func (fr *Frame) recordWriteT(p Ptr, t types.Type) {
 	if fr.dry == nil {
-		fr.v.noteWrite(p.H)
+		fr.v.noteWriteP(p)
 		return
 	}
 	k := p.H.String()
@@ -550,6 +559,9 @@ func (fr *Frame) enter(st *State, b, pred *ssa.BasicBlock) {
 		return // dry run: left the loop
 	}
 	li := fr.loops[b]
+	if li != nil && pred != nil && fr.unrolled(st, li, b, pred) {
+		li = nil
+	}
 	if li != nil && pred != nil {
 		inLoop := li.body[pred]
 		if inLoop && fr.isActive(b) {
@@ -566,6 +578,70 @@ func (fr *Frame) enter(st *State, b, pred *ssa.BasicBlock) {
 	}
 	fr.evalPhis(st, b, pred)
 	fr.exec(st, b, fr.firstNonPhi(b))
+}
+
+// unrolled: a loop without invariant clauses whose trip count is concrete at entry (counter phi with a
+// constant start compared against a constant bound, the shape of `for i := range s` over a slice of
+// known length) is executed as it stands - plain symbolic execution, no cut, nothing assumed.
+func (fr *Frame) unrolled(st *State, li *loopInfo, b, pred *ssa.BasicBlock) bool {
+	if li.body[pred] {
+		n, ok := fr.unroll[li]
+		if !ok {
+			return false
+		}
+		if n > 64 {
+			fail("%s: unrolled loop %d exceeds 64 iterations", fr.fn, li.ord)
+		}
+		fr.unroll[li] = n + 1
+		return true
+	}
+	delete(fr.unroll, li)
+	if len(fr.loopClauses(li, "invariant")) != 0 || len(b.Instrs) == 0 {
+		return false
+	}
+	ifi, ok := b.Instrs[len(b.Instrs)-1].(*ssa.If)
+	if !ok {
+		return false
+	}
+	cmp, ok := ifi.Cond.(*ssa.BinOp)
+	if !ok || (cmp.Op != token.LSS && cmp.Op != token.LEQ) {
+		return false
+	}
+	conc := func(v ssa.Value) bool {
+		if _, isC := v.(*ssa.Const); isC {
+			return true
+		}
+		r, ok := fr.regs[v]
+		if !ok {
+			return false
+		}
+		s, ok := r.(Scalar)
+		return ok && s.T.IsInt()
+	}
+	if !conc(cmp.Y) {
+		return false
+	}
+	x := cmp.X
+	if add, ok := x.(*ssa.BinOp); ok && add.Op == token.ADD {
+		if _, isC := add.Y.(*ssa.Const); !isC {
+			return false
+		}
+		x = add.X
+	}
+	ph, ok := x.(*ssa.Phi)
+	if !ok || ph.Block() != b {
+		return false
+	}
+	for i, p := range b.Preds {
+		if p == pred && !conc(ph.Edges[i]) {
+			return false
+		}
+	}
+	if fr.unroll == nil {
+		fr.unroll = map[*loopInfo]int{}
+	}
+	fr.unroll[li] = 0
+	return true
 }
 
 func (fr *Frame) isActive(h *ssa.BasicBlock) bool {
@@ -627,6 +703,9 @@ func (fr *Frame) exec(st *State, b *ssa.BasicBlock, idx int) {
 			return
 		case *ssa.If:
 			c := fr.get(st, x.Cond).(Scalar).T
+			if os.Getenv("GOVC_DEBUG") == "ifs" && fr.dry == nil && fr.depth == 0 {
+				fmt.Fprintf(os.Stderr, "if b%d %s : %s  (norm %s)\n", b.Index, x.Cond, c, st.norm(c))
+			}
 			fr.branch(st, c, b, b.Succs[0], b.Succs[1])
 			return
 		case *ssa.Jump:
